@@ -151,6 +151,23 @@ func (g *gate) waitNext(k int, limit time.Duration) bool {
 	}
 }
 
+// waitHit blocks until some goroutine has ARRIVED at the point (it may be parked there).
+func (g *gate) waitHit(name string, limit time.Duration) bool {
+	dl := time.Now().Add(limit)
+	for {
+		g.mu.Lock()
+		ok, rel := g.hits[name] > 0, g.released
+		g.mu.Unlock()
+		if ok {
+			return true
+		}
+		if rel || time.Now().After(dl) {
+			return false
+		}
+		time.Sleep(200 * time.Microsecond)
+	}
+}
+
 // realised: every scripted point passed, in the scripted order, without a timeout.
 func (g *gate) realised() bool {
 	g.mu.Lock()
